@@ -81,7 +81,10 @@ func LogRecords(r *rand.Rand, n int) [][]byte {
 		case style == 2 && r.Intn(4) == 0:
 			out[i] = nil
 		default:
-			b := make([]byte, r.Intn(1+r.Intn(201)))
+			b := make([]byte, r.Intn(1+r.Intn(301)))
+			if r.Intn(40) == 0 {
+				b = make([]byte, 254+r.Intn(5)) // 254..258: around one byte of length
+			}
 			r.Read(b)
 			out[i] = b
 		}
